@@ -28,5 +28,16 @@ Definition known_panic_sites : list (string * list (string * N)) :=
    ("rr/rfc_7043.rs", [("index", 14)]);
    ("rr/subtypes.rs", [("split_at", 2); ("index", 2)])].                   (* SPrefixIndex / SPrefixSplit / SPrefixShift *)
 
-Lemma panic_sites_known_proof : audit_panic_sites = known_panic_sites.
-Proof. reflexivity. Qed.
+(* no NEW panic-capable construct: every (file, construct) of the audit occurs in the known table with at
+   least that count.  (Removing a site cannot add a panic, so fewer is fine; a new file, a new kind of
+   construct in a file, or a higher count is not.) *)
+Fixpoint count_of (k : string) (l : list (string * N)) : N :=
+  match l with [] => 0 | (k', n) :: r => if String.eqb k k' then n else count_of k r end.
+Fixpoint row_of (f : string) (t : list (string * list (string * N))) : list (string * N) :=
+  match t with [] => [] | (f', r) :: t' => if String.eqb f f' then r else row_of f t' end.
+Definition sites_within (audit known : list (string * list (string * N))) : bool :=
+  forallb (fun fr : string * list (string * N) =>
+             forallb (fun kn : string * N => N.leb (snd kn) (count_of (fst kn) (row_of (fst fr) known))) (snd fr)) audit.
+
+Lemma panic_sites_known_proof : sites_within audit_panic_sites known_panic_sites = true.
+Proof. vm_compute. reflexivity. Qed.
